@@ -516,6 +516,10 @@ func evidenceDir(cfg checkCfg) string {
 	if d := os.Getenv("QEDVC_EVIDENCE_DIR"); d != "" {
 		return d
 	}
+	if cfg.OnlyFunc != "" {
+		// a partial run (-func) is a development aid: its evidence is not the property's
+		return filepath.Join(os.TempDir(), "qedvc-partial-evidence")
+	}
 	return filepath.Join(cfg.VerifDir, "evidence")
 }
 
